@@ -18,13 +18,13 @@ func (c09) Budget(tier string) (int, int) {
 	return 80000, 20
 }
 func (c09) Rule() string {
-	return "fault H-error@k: the simulator-owned handler returns a chosen error value (pointer sentinel, comparable struct value, io.EOF) at callback k with an accompanying offset from {0, exact end, the hostile catalogue incl. values near the integer limits}; earlier callbacks decline/consume/run nested traversals from the tape. For containers of <= 32 members every k is enumerated (one scenario per k), larger ones are sampled. Also nested: the error is raised inside a traversal started from a callback and must come back through every level. A run is non-trivial when an error was injected; distinct = distinct hashes of (operation, document class, decisions, k, error kind, offset class)."
+	return "fault H-error@k: the simulator-owned handler returns a chosen error value (pointer sentinel, comparable struct value, io.EOF) (or one of 13 error values obtained from the library itself - errUnexpectedEOF, errInvalidArray, errNoValidToken, errPOutOfRange ... - as a handler that passes a reader's error on would) at callback k with an accompanying offset from {0, exact end, the hostile catalogue incl. values near the integer limits}; earlier callbacks decline/consume/run nested traversals from the tape. For containers of <= 32 members every k is enumerated (one scenario per k), larger ones are sampled. Also nested: the error is raised inside a traversal started from a callback and must come back through every level. A run is non-trivial when an error was injected; distinct = distinct hashes of (operation, document class, decisions, k, error kind, offset class)."
 }
 func (c09) Assumptions() []string {
 	return []string{"error identity is Go interface equality (==) between the returned error and the injected value", "input documents are sampled"}
 }
 func (c09) Required(tier string) []string {
-	return []string{"H-error", "H-nested", "error-at-scalar-member", "error-at-string-member", "error-at-container-member", "error-offset-near-maxint", "error-in-nested-traversal"}
+	return []string{"H-error", "H-nested", "error-is-a-library-error-value", "error-at-scalar-member", "error-at-string-member", "error-at-container-member", "error-offset-near-maxint", "error-in-nested-traversal"}
 }
 
 func (c09) Gen(r *Rand, sc *Scenario, tier string) {
@@ -45,12 +45,12 @@ func (c09) Gen(r *Rand, sc *Scenario, tier string) {
 	}
 	sc.Docs = []Doc{doc}
 	errDec := func() int {
-		ek := r.Intn(3)
+		ek := r.Intn(nErrKinds)
 		off := r.Pick(2, 2, 8)
 		if off == 2 {
 			off = 2 + r.Intn(24)
 		}
-		return mkDec(dError, ek+3*off)
+		return mkDec(dError, ek+nErrKinds*off)
 	}
 	var ops []Op
 	if n <= 32 && r.Chance(2, 3) {
@@ -117,6 +117,9 @@ func (c09) Exec(sc *Scenario, st *Stats) *Violation {
 			}
 		}
 		st.probe(errMemberProbe(doc, out.CBs))
+		if e.thrown >= 3 {
+			st.probe("error-is-a-library-error-value")
+		}
 		st.evi("erridx", e.thrown)
 		if out.OK {
 			return viol("swallowed", "the handler returned an error but the traversal reported success")
